@@ -155,8 +155,17 @@ def analyse(res: Result, sim: simnet.Sim, sc: Dict[str, Any], out: Dict[str, Any
     trace = [e for e in sim.net.trace if e["t"] >= U - 1e-6 and e["i"] >= 0]
     # one entry per datagram *per sending socket*: analyse per socket so split layouts are not double counted
     by_sock: Dict[int, List[Dict[str, Any]]] = {}
+    sender_fds = {e["fd"] for e in sim.net.trace if e["mcast"]}      # sockets used for multicast (a listen-only socket may send unicast replies)
     for e in trace:
-        by_sock.setdefault(e["fd"], []).append(e)
+        if e["fd"] in sender_fds:
+            by_sock.setdefault(e["fd"], []).append(e)
+    for e in trace:
+        if e["fd"] not in sender_fds:
+            # unicast replies sent through a listen-only socket: judged for resurrection together with every sender socket
+            for fd in by_sock:
+                by_sock[fd].append(e)
+    for fd in by_sock:
+        by_sock[fd].sort(key=lambda x: x["i"])
     queue_cls = classify_queue(sc)
     for s in withdrawn:
         shared = any(r.server.lower() == s.server.lower() for r in remaining)
